@@ -89,11 +89,11 @@ theorem Ginv_ret (c : Cfg) (g : St) (p : Nat) (hnh : g.halted = false) (hans : A
     · exact Or.inr (Or.inr h1)
   · rename_i h
     split
-    · exact ⟨by simp, fun _ => ⟨hsp, Or.inr (Or.inl rfl)⟩, hans⟩
-    · rename_i hr
-      split
-      · exact ⟨by simp, fun _ => ⟨hsp, Or.inl rfl⟩, hans⟩
-      · exact ⟨fun _ => ⟨hp h hr, Nat.zero_le _⟩, by simp [hnh], hans⟩
+    · exact ⟨by simp, fun _ => ⟨hsp, Or.inl rfl⟩, hans⟩
+    · split
+      · exact ⟨by simp, fun _ => ⟨hsp, Or.inr (Or.inl rfl)⟩, hans⟩
+      · rename_i hr
+        exact ⟨fun _ => ⟨hp h hr, Nat.zero_le _⟩, by simp [hnh], hans⟩
 
 theorem Ginv_next (c : Cfg) (g : St) (hnh : g.halted = false) (hans : Ans g.view)
     (hp : PhaseData c g.view (g.phase + 1)) (hin : g.inner ≤ g.phase + 1) :
@@ -601,6 +601,34 @@ theorem SpOK_done (c : Cfg) (t : List Ev) (r : Resp) (code : Option Nat)
     (h : backPart t = .spass 0 (sendRun c.send 0) :: replyEvs r code) : SpOK c t :=
   Or.inr ⟨_, h, replyEvs_shape r code⟩
 
+theorem isDenyEv_eq : isDenyEv = denyEv := by
+  funext e; cases e <;> rfl
+
+theorem upfEnabled_nodeny (c : Cfg) (g : St) (h : upfEnabled c g = true) : ¬ DenyIn g.trace := by
+  intro ⟨e, he, hd⟩
+  simp only [upfEnabled, Bool.and_eq_true, Bool.not_eq_true', List.any_eq_false] at h
+  have := h.1.2 e he
+  rw [isDenyEv_eq, hd] at this; exact this rfl
+
+/-- [proxy8] `processError` at the end of the UpFilter `case` when the upstream stream of the accepted response was reset during
+the sender pass (no filter answered): retried when the regenerated decision on the reset reason fires, else the error reply
+of the reason replaces the response and the response pass goes on with it (the repaired line of a3a21969e: `err = nil`) -/
+theorem G_reset_upf (c : Cfg) (g : St) (hnh : g.halted = false) (hc : g.cleaned = false) (hr : g.upstreamReset = true)
+    (hd : g.direct = false) (hph : g.phase = UpFilter) (hpd : g.procDone = false)
+    (hna : ¬ answeredIn g.trace) (hback : backPart g.trace = [theRun c]) (ho : c.env.oneway = false)
+    (hin : g.inner ≤ g.phase + 1) : Ginv c (afterPE c g) := by
+  rw [afterPE_reset c g hc hr, if_neg (by simp [ho])]
+  split
+  · rw [if_neg (by simp [hd])]
+    exact Ginv_ret c _ Retry (by simp [setRetry, liftF, hnh]) (fun h => absurd h hna) (Or.inr ⟨[], hback, rfl⟩)
+      (fun h => by cases h) (fun _ h => absurd rfl h)
+  · rw [if_neg (by simp [hph])]
+    refine Ginv_next c (consumeDirect (onUpstreamReset c.env.resetCode g)) (by simpa [consumeDirect, onUpstreamReset, liftF] using hnh)
+      (fun h => absurd h hna) ?_ hin
+    show PhaseData c _ (g.phase + 1)
+    rw [hph]
+    exact PhaseData_13 c _ ⟨rfl, hc, rfl, hpd⟩ rfl rfl hback ho
+
 theorem phaseCase_Ginv_back (c : Cfg) (s : St) (hnh : s.halted = false) (hd : PhaseData c s.view s.phase)
     (hin : s.inner ≤ s.phase + 1) (hans : Ans s.view) (hge : 12 ≤ s.phase) : Ginv c (phaseCase c s) := by
   have hcom : Common s.view := hd.1
@@ -612,6 +640,7 @@ theorem phaseCase_Ginv_back (c : Cfg) (s : St) (hnh : s.halted = false) (hd : Ph
   any_goals omega
   · -- UpFilter: the sender filters run once, in order
     rw [pc12 c s h]
+    show Ginv c (afterPE c (upfEvent c (sendPass c s)))
     obtain ⟨hresp, hrst, hback, hsf, ho⟩ := PhaseData_12_of c _ (by rw [← h]; exact hd)
     have hback : backPart s.trace = [] := hback
     have hsf : SFresh s.toFState := hsf
@@ -640,6 +669,27 @@ theorem phaseCase_Ginv_back (c : Cfg) (s : St) (hnh : s.halted = false) (hd : Ph
     have gB : backPart g.trace = [theRun c] := by
       rw [gT, backPart_snoc, hback]; rfl
     have gAns : Ans g.view := Ans_congr hans gResp gSv (by show recvVerdicts g.trace = _; rw [gT]; exact recvVerdicts_snoc_other _ _ rfl)
+    have hterm : g.cleaned = true → ∃ st invs, Ev.spass st invs ∈ g.trace ∧ ∃ iv ∈ invs, iv.2 = .termination := by
+      intro hc
+      have hc' : (runSend c.send s.toFState).1.cleaned = true := by rw [← gF]; exact hc
+      rcases f6 hc' with h' | ⟨iv, hiv, ht⟩
+      · rw [show s.toFState.cleaned = false from hs_clean] at h'; cases h'
+      · refine ⟨0, sendRun c.send 0, ?_, iv, ?_, ht⟩
+        · show theRun c ∈ g.trace; rw [gT]; simp
+        · rw [← hrun]; exact hiv
+    by_cases he : upfEnabled c g = true
+    · -- [proxy8] the upstream stream of the accepted response is reset during the sender pass
+      have e2 : upfEvent c g = { g with upstreamReset := true } := by simp [upfEvent, he]
+      rw [e2]
+      by_cases hc : g.cleaned = true
+      · exact G_cleaned c _ gH hc gAns (Or.inr ⟨[], gB, rfl⟩) ⟨hc, Or.inl (Or.inr (hterm hc))⟩
+      · have hc : g.cleaned = false := by simpa using hc
+        exact G_reset_upf c _ gH hc rfl gDir (by rw [show ({ g with upstreamReset := true } : St).phase = g.phase from rfl, gP, h])
+          gD (fun ha => upfEnabled_nodeny c g he (answeredIn_deny ha)) gB ho
+          (by rw [show ({ g with upstreamReset := true } : St).inner = g.inner from rfl,
+                show ({ g with upstreamReset := true } : St).phase = g.phase from rfl, gI, gP]; exact hin)
+    have e2 : upfEvent c g = g := by simp [upfEvent, he]
+    rw [e2]
     by_cases hc : g.cleaned = true
     · refine G_cleaned c g gH hc gAns (Or.inr ⟨[], gB, rfl⟩) ⟨hc, Or.inl (Or.inr ?_)⟩
       have hc' : (runSend c.send s.toFState).1.cleaned = true := by rw [← gF]; exact hc
@@ -812,6 +862,21 @@ theorem step_Ginv (c : Cfg) (s : St) (h : Ginv c s) : Ginv c (step c s) := by
       rcases Nat.lt_or_ge s.phase 16 with h' | h'
       · omega
       · exact (PhaseData_ge16_of c _ _ h' hd).elim
+    split
+    · -- [proxy8] the task loop's budget is used up: what follows the loop
+      rcases finishStart_cases c s with ⟨_, e⟩ | ⟨hcl, e⟩ | ⟨hhj, e⟩ | ⟨hcl, hhj, e⟩ <;> rw [e]
+      · exact ⟨(fun hh => by cases hh), fun _ => ⟨PhaseData_SpOK c _ _ hd, Or.inl rfl⟩, h.ans⟩
+      · have := hd.1.cleaned
+        rw [show s.view.f.cleaned = s.cleaned from rfl, hcl] at this; cases this
+      · exact ⟨fun _ => ⟨hd, hin⟩, (fun hh => by rw [show ({ s with outer := s.outer + 1 } : St).halted = s.halted from rfl, hnh] at hh; cases hh), h.ans⟩
+      · -- `sendHijackReply(500)` taken by `processError`: the guard excludes UpFilter / Oneway, so the worker is in the receive phases
+        have hp : s.phase = 2 ∨ s.phase = 4 := by
+          simpa [exhaustHijacks, MatchRoute, ChooseHost] using hhj
+        have hf : FrontOK s.view := PhaseData_front_of c _ _ (by omega) hd
+        have hnd : ¬ DenyIn (finHijack s).trace := hf.nodeny
+        exact G_direct c (finHijack s) hnh (by simpa [finHijack, liftF, sendHijack] using hcl) hf.upstreamReset
+          (by simp [finHijack, liftF, sendHijack]) (by show s.phase ≠ 12; omega) hd.1.procDone
+          (Ans_of_nodeny hnd) (by simp [finHijack, liftF, sendHijack]) hf.noback hf.sfresh
     rw [if_neg (by show ¬ s.inner > 16; omega)]
     rcases Nat.lt_or_ge s.phase 12 with hlt | hge
     · exact phaseCase_Ginv_front c { s with inner := s.inner + 1 } hnh hd (by show s.inner + 1 ≤ s.phase + 1; omega) h.ans
@@ -835,7 +900,7 @@ theorem run_Ginv (c : Cfg) (n : Nat) (s : St) (h : Ginv c s) : Ginv c (run c n s
 returned a phase and the task loop calls it again -/
 def Ctl (s r : St) : Prop :=
   r.halted = true ∨ (r.outer = s.outer ∧ r.inner = s.inner) ∨
-    (r.outer = s.outer + 1 ∧ r.inner = 0 ∧ s.outer + 1 < taskLoopBound)
+    (r.outer = s.outer + 1 ∧ r.inner = 0 ∧ s.outer ≤ taskLoopBound)
 
 theorem ret_ctl (s g : St) (p : Nat) (ho : g.outer = s.outer) : Ctl s (ret g p) := by
   unfold ret
@@ -845,7 +910,7 @@ theorem ret_ctl (s g : St) (p : Nat) (ho : g.outer = s.outer) : Ctl s (ret g p) 
     · exact Or.inl rfl
     · split
       · exact Or.inl rfl
-      · rename_i h
+      · rename_i h _
         exact Or.inr (Or.inr ⟨by simp [ho], rfl, by rw [← ho]; omega⟩)
 
 theorem afterPE_ctl (c : Cfg) (s g : St) (ho : g.outer = s.outer) (hi : g.inner = s.inner) : Ctl s (afterPE c g) := by
@@ -914,7 +979,7 @@ theorem phaseCase_ctl (c : Cfg) (s : St) : Ctl s (phaseCase c s) := by
     · apply afterPE_ctl
       · unfold deliver; split <;> (try split) <;> rfl
       · unfold deliver; split <;> (try split) <;> rfl
-  · rw [pc12 c s h]; exact afterPE_ctl c s _ (by simp [sendPass, emit, liftF]) (by simp [sendPass, emit, liftF])
+  · rw [pc12 c s h]; exact afterPE_ctl c s _ (by simp [sendPassE, sendPass, emit, liftF]) (by simp [sendPassE, sendPass, emit, liftF])
   · rw [pc13 c s h]; split
     · split
       · rw [afterPEd_true c (setRetry s) (by simp [setRetry, liftF])]
@@ -948,60 +1013,121 @@ theorem phaseCase_ctl (c : Cfg) (s : St) : Ctl s (phaseCase c s) := by
   · rw [pc16 c s h]; exact ret_ctl s s _ rfl
   · rw [pc17 c s h]; exact halt _
 
-/-- remaining iterations the task loop can make -/
-def measure (s : St) : Nat := if s.halted then 0 else (taskLoopBound - s.outer) * (receiveLoopBound + 2) - s.inner
+/-- remaining iterations the task can make: the task loop, the step after it, the finishing pass -/
+def measure (s : St) : Nat := if s.halted then 0 else (taskLoopBound + 2 - s.outer) * (receiveLoopBound + 2) - s.inner
 
-theorem step_measure (c : Cfg) (s : St) (hnh : s.halted = false) (ho : s.outer < taskLoopBound)
+theorem measure_live (s : St) (h : s.halted = false) : measure s = (12 - s.outer) * 18 - s.inner := by
+  simp [measure, h]
+
+theorem measure_halted (s : St) (h : s.halted = true) : measure s = 0 := by simp [measure, h]
+
+theorem mul18 (a b : Nat) (h : a = b + 1) : a * 18 = b * 18 + 18 := by rw [h, Nat.add_mul]
+
+/-- [proxy8] what follows the exhausted task loop ends the task or starts the finishing pass (`outer` = taskLoopBound + 1) -/
+theorem finishStart_ctl (c : Cfg) (s : St) (hg : Ginv c s) (hnh : s.halted = false) :
+    (finishStart c s).halted = true ∨ ((finishStart c s).outer = s.outer + 1 ∧ (finishStart c s).inner ≤ s.inner) := by
+  obtain ⟨hd, hin⟩ := hg.live hnh
+  rcases finishStart_cases c s with ⟨_, e⟩ | ⟨_, e⟩ | ⟨_, e⟩ | ⟨hcl, hhj, e⟩ <;> rw [e]
+  · exact Or.inl rfl
+  · exact Or.inl rfl
+  · exact Or.inr ⟨rfl, Nat.le_refl _⟩
+  · have hp : s.phase = 2 ∨ s.phase = 4 := by
+      simpa [exhaustHijacks, MatchRoute, ChooseHost] using hhj
+    have hf : FrontOK s.view := PhaseData_front_of c _ _ (by omega) hd
+    have hr : (finHijack s).upstreamReset = false := hf.upstreamReset
+    rw [afterPE_direct c (finHijack s) (by simpa [finHijack, liftF, sendHijack] using hcl) hr
+      (by simp [finHijack, liftF, sendHijack])]
+    have hle : s.outer ≤ taskLoopBound ∨ s.outer > taskLoopBound := by omega
+    have key : ∀ (x : St) (p : Nat), x.outer = s.outer → x.inner = s.inner →
+        (ret x p).halted = true ∨ ((ret x p).outer = s.outer + 1 ∧ (ret x p).inner ≤ s.inner) := by
+      intro x p ho hi
+      unfold ret
+      split
+      · exact Or.inl rfl
+      · split
+        · exact Or.inl rfl
+        · split
+          · exact Or.inl rfl
+          · exact Or.inr ⟨by simp [ho], Nat.zero_le _⟩
+    split
+    · exact key _ _ rfl rfl
+    · split
+      · exact key _ _ rfl rfl
+      · rename_i h12
+        have : s.phase = 12 := by simpa [finHijack, liftF, UpFilter] using h12
+        omega
+
+/-- [proxy8] … touches none of the fields `processError` never touches, and leaves the worker where it was (a pending local
+reply / the one-way clean up) or at Oneway / UpFilter -/
+theorem finishStart_form (c : Cfg) (s : St) (hg : Ginv c s) (hnh : s.halted = false) :
+    Frame s (finishStart c s) ∧
+    ((finishStart c s).halted = true ∨ ((finishStart c s).halted = false ∧ (finishStart c s).phase = s.phase) ∨
+      9 ≤ (finishStart c s).phase) := by
+  obtain ⟨hd, hin⟩ := hg.live hnh
+  rcases finishStart_cases c s with ⟨_, e⟩ | ⟨_, e⟩ | ⟨_, e⟩ | ⟨hcl, hhj, e⟩ <;> rw [e]
+  · exact ⟨⟨rfl, rfl, rfl, rfl, rfl, rfl, rfl⟩, Or.inl rfl⟩
+  · exact ⟨⟨rfl, rfl, rfl, rfl, rfl, rfl, rfl⟩, Or.inl rfl⟩
+  · exact ⟨⟨rfl, rfl, rfl, rfl, rfl, rfl, rfl⟩, Or.inr (Or.inl ⟨hnh, rfl⟩)⟩
+  · refine ⟨?_, ?_⟩
+    · obtain ⟨f1, f2, f3, f4, f5, f6, f7⟩ := afterPE_frame c (finHijack s)
+      exact ⟨f1, f2, f3, f4, f5, f6, f7⟩
+    · have hp : s.phase = 2 ∨ s.phase = 4 := by
+        simpa [exhaustHijacks, MatchRoute, ChooseHost] using hhj
+      have hf : FrontOK s.view := PhaseData_front_of c _ _ (by omega) hd
+      have hr : (finHijack s).upstreamReset = false := hf.upstreamReset
+      rw [afterPE_direct c (finHijack s) (by simpa [finHijack, liftF, sendHijack] using hcl) hr
+        (by simp [finHijack, liftF, sendHijack])]
+      split
+      · exact Or.inr (Or.inr (by rw [ret_phase]; decide))
+      · split
+        · exact Or.inr (Or.inr (by rw [ret_phase]; decide))
+        · rename_i h12
+          have : s.phase = 12 := by simpa [finHijack, liftF, UpFilter] using h12
+          omega
+
+theorem step_measure (c : Cfg) (s : St) (hg : Ginv c s) (hnh : s.halted = false) (ho : s.outer ≤ taskLoopBound + 1)
     (hi : s.inner ≤ receiveLoopBound) :
-    measure (step c s) + 1 ≤ measure s ∧ ((step c s).halted = false → (step c s).outer < taskLoopBound) := by
+    measure (step c s) + 1 ≤ measure s ∧ ((step c s).halted = false → (step c s).outer ≤ taskLoopBound + 1) := by
   have hb : receiveLoopBound = 16 := rfl
   have ht : taskLoopBound = 10 := rfl
-  unfold step
-  rw [if_neg (by simp [hnh]), if_neg (by omega)]
-  have hctl := phaseCase_ctl c { s with inner := s.inner + 1 }
-  generalize phaseCase c { s with inner := s.inner + 1 } = r at hctl
-  have hm : measure s = (taskLoopBound - s.outer) * (receiveLoopBound + 2) - s.inner := by simp [measure, hnh]
-  rw [hm, hb, ht]
   rw [ht] at ho
-  rcases hctl with h | ⟨h1, h2⟩ | ⟨h1, h2, h3⟩
-  · refine ⟨?_, fun hh => by rw [h] at hh; cases hh⟩
-    simp only [measure, h, if_true]
-    have : (10 - s.outer) * (16 + 2) ≥ 18 := by
-      have : 10 - s.outer ≥ 1 := by omega
-      calc (10 - s.outer) * (16 + 2) ≥ 1 * (16 + 2) := Nat.mul_le_mul_right _ this
-        _ = 18 := rfl
-    omega
-  · have h1 : r.outer = s.outer := h1
-    have h2 : r.inner = s.inner + 1 := h2
-    refine ⟨?_, fun _ => by rw [h1]; exact ho⟩
-    unfold measure
-    split
-    · have : (10 - s.outer) * (16 + 2) ≥ 18 := by
-        have : 10 - s.outer ≥ 1 := by omega
-        calc (10 - s.outer) * (16 + 2) ≥ 1 * (16 + 2) := Nat.mul_le_mul_right _ this
-          _ = 18 := rfl
-      omega
-    · rw [h1, h2, hb, ht]
-      have : (10 - s.outer) * (16 + 2) ≥ 18 := by
-        have : 10 - s.outer ≥ 1 := by omega
-        calc (10 - s.outer) * (16 + 2) ≥ 1 * (16 + 2) := Nat.mul_le_mul_right _ this
-          _ = 18 := rfl
-      omega
-  · have h1 : r.outer = s.outer + 1 := h1
-    have h3 : s.outer + 1 < 10 := h3
-    refine ⟨?_, fun _ => by rw [h1]; exact h3⟩
-    unfold measure
-    split
-    · have : (10 - s.outer) * (16 + 2) ≥ 18 := by
-        have : 10 - s.outer ≥ 1 := by omega
-        calc (10 - s.outer) * (16 + 2) ≥ 1 * (16 + 2) := Nat.mul_le_mul_right _ this
-          _ = 18 := rfl
-      omega
-    · rw [h1, h2, hb, ht]
-      have e : (10 - s.outer) * (16 + 2) = (10 - (s.outer + 1)) * (16 + 2) + 18 := by
-        have : 10 - s.outer = (10 - (s.outer + 1)) + 1 := by omega
-        rw [this, Nat.add_mul]
-      omega
+  rw [hb] at hi
+  have hm := measure_live s hnh
+  unfold step
+  rw [if_neg (by simp [hnh])]
+  split
+  · rename_i h10
+    rw [ht] at h10
+    rcases finishStart_ctl c s hg hnh with h | ⟨h1, h2⟩
+    · refine ⟨?_, fun hh => by rw [h] at hh; cases hh⟩
+      rw [measure_halted _ h, hm, h10]; omega
+    · refine ⟨?_, fun _ => by rw [h1, h10, ht]; omega⟩
+      cases hh : (finishStart c s).halted
+      · rw [measure_live _ hh, hm, h1, h10]; omega
+      · rw [measure_halted _ hh, hm, h10]; omega
+  · rename_i h10
+    rw [ht] at h10
+    rw [if_neg (by omega)]
+    have hctl := phaseCase_ctl c { s with inner := s.inner + 1 }
+    generalize phaseCase c { s with inner := s.inner + 1 } = r at hctl
+    have hpos : (12 - s.outer) * 18 = (11 - s.outer) * 18 + 18 := mul18 _ _ (by omega)
+    rcases hctl with h | ⟨h1, h2⟩ | ⟨h1, h2, h3⟩
+    · refine ⟨?_, fun hh => by rw [h] at hh; cases hh⟩
+      rw [measure_halted _ h, hm]; omega
+    · have h1 : r.outer = s.outer := h1
+      have h2 : r.inner = s.inner + 1 := h2
+      refine ⟨?_, fun _ => by rw [h1, ht]; exact ho⟩
+      cases hh : r.halted
+      · rw [measure_live _ hh, hm, h1, h2]; omega
+      · rw [measure_halted _ hh, hm]; omega
+    · have h1 : r.outer = s.outer + 1 := h1
+      have h3 : s.outer ≤ 10 := h3
+      refine ⟨?_, fun _ => by rw [h1, ht]; omega⟩
+      cases hh : r.halted
+      · rw [measure_live _ hh, hm, h1, h2]
+        have : 12 - (s.outer + 1) = 11 - s.outer := by omega
+        rw [this]; omega
+      · rw [measure_halted _ hh, hm]; omega
 
 theorem Ginv_inner_le (c : Cfg) (s : St) (h : Ginv c s) (hnh : s.halted = false) : s.inner ≤ receiveLoopBound := by
   obtain ⟨hd, hin⟩ := h.live hnh
@@ -1011,13 +1137,13 @@ theorem Ginv_inner_le (c : Cfg) (s : St) (h : Ginv c s) (hnh : s.halted = false)
     · exact (PhaseData_ge16_of c _ _ h' hd).elim
   show s.inner ≤ 16; omega
 
-theorem run_measure (c : Cfg) (n : Nat) (s : St) (hg : Ginv c s) (ho : s.halted = false → s.outer < taskLoopBound) :
-    measure (run c n s) ≤ measure s - n ∧ ((run c n s).halted = false → (run c n s).outer < taskLoopBound) := by
+theorem run_measure (c : Cfg) (n : Nat) (s : St) (hg : Ginv c s) (ho : s.halted = false → s.outer ≤ taskLoopBound + 1) :
+    measure (run c n s) ≤ measure s - n ∧ ((run c n s).halted = false → (run c n s).outer ≤ taskLoopBound + 1) := by
   induction n generalizing s with
   | zero => exact ⟨Nat.le_refl _, ho⟩
   | succ n ih =>
     show measure (run c n (step c s)) ≤ measure s - (n + 1) ∧
-      ((run c n (step c s)).halted = false → (run c n (step c s)).outer < taskLoopBound)
+      ((run c n (step c s)).halted = false → (run c n (step c s)).outer ≤ taskLoopBound + 1)
     by_cases hh : s.halted = true
     · have hs : step c s = s := by simp [step, hh]
       rw [hs]
@@ -1025,32 +1151,26 @@ theorem run_measure (c : Cfg) (n : Nat) (s : St) (hg : Ginv c s) (ho : s.halted 
       exact ⟨by have : measure s = 0 := by simp [measure, hh]
                 rw [this] at i1 ⊢; omega, i2⟩
     · have hh : s.halted = false := by simpa using hh
-      obtain ⟨m1, m2⟩ := step_measure c s hh (ho hh) (Ginv_inner_le c s hg hh)
+      obtain ⟨m1, m2⟩ := step_measure c s hg hh (ho hh) (Ginv_inner_le c s hg hh)
       obtain ⟨i1, i2⟩ := ih (step c s) (step_Ginv c s hg) m2
       exact ⟨by omega, i2⟩
 
 /-- **the worker always returns**: after at most `fuel` iterations the task of `OnReceive` has returned (or would block
 forever — excluded separately) -/
 theorem final_halted (c : Cfg) : (final c).halted = true := by
-  obtain ⟨h1, h2⟩ := run_measure c fuel init (init_Ginv c) (fun _ => by show (0 : Nat) < 10; omega)
-  have hm : measure init = 180 := rfl
-  have h0 : measure (final c) = 0 := by
-    have : measure (run c fuel init) ≤ 180 - fuel := by rw [← hm]; exact h1
-    have hf : fuel = 180 := rfl
-    show measure (run c fuel init) = 0
+  obtain ⟨h1, h2⟩ := run_measure c fuel init (init_Ginv c) (fun _ => by show (0 : Nat) ≤ 10 + 1; omega)
+  have hm : measure init = 216 := rfl
+  have hf : fuel = 216 := rfl
+  have h0 : measure (run c fuel init) = 0 := by
+    have : measure (run c fuel init) ≤ 216 - fuel := by rw [← hm]; exact h1
     omega
   cases hh : (final c).halted
   · exfalso
-    have hout := h2 hh
-    have hin := Ginv_inner_le c _ (run_Ginv c fuel init (init_Ginv c)) hh
-    have hout : (final c).outer < 10 := hout
-    have hin : (final c).inner ≤ 16 := hin
-    simp only [measure, hh, Bool.false_eq_true, if_false] at h0
-    have h0 : (10 - (final c).outer) * (16 + 2) - (final c).inner = 0 := h0
-    have : (10 - (final c).outer) * (16 + 2) ≥ 18 := by
-      have : 10 - (final c).outer ≥ 1 := by omega
-      calc (10 - (final c).outer) * (16 + 2) ≥ 1 * (16 + 2) := Nat.mul_le_mul_right _ this
-        _ = 18 := rfl
+    have hout : (run c fuel init).outer ≤ 10 + 1 := h2 hh
+    have hin : (run c fuel init).inner ≤ 16 := Ginv_inner_le c _ (run_Ginv c fuel init (init_Ginv c)) hh
+    have hh' : (run c fuel init).halted = false := hh
+    rw [measure_live _ hh'] at h0
+    have : (12 - (run c fuel init).outer) * 18 = (11 - (run c fuel init).outer) * 18 + 18 := mul18 _ _ (by omega)
     omega
   · rfl
 
